@@ -53,6 +53,8 @@ def run_case(case: dict, st=None) -> Tuple[List[dict], Dict[str, Any]]:
     def viol(kind, what, detail=""):
         if case.get("pre_noise"):
             kind += "|after-testing-the-same-circuit-at-another-noise-level"
+        if case.get("order"):
+            kind += f"|points-listed-{case['order']}"
         viols.append({"key": f"auto-kk|{kind}", "what": what, "case": case, "detail": detail})
 
     ident = LADDERS.get(case["spectrum"], case["spectrum"])
@@ -69,6 +71,14 @@ def run_case(case: dict, st=None) -> Tuple[List[dict], Dict[str, Any]]:
             except Exception:
                 pass
         d = st["gen"](ident, noise=case["noise"], seed=case["seed"])[0]
+        if case.get("order"):
+            # the same noisy points listed in another order (low-frequency half first / ascending): the spectrum is the same
+            from pyimpspec import DataSet
+
+            f_, Z_ = d.get_frequencies(), d.get_impedances()
+            n_ = len(f_)
+            idx = {"two-part": list(range(n_ // 2, n_)) + list(range(0, n_ // 2)), "asc": list(range(n_ - 1, -1, -1))}[case["order"]]
+            d = DataSet(f_[idx], Z_[idx], label=d.get_label(), path=d.get_path())
         if case["part"] == "noise":
             tests, (r, scores, lo, hi) = st["ekk"](d, num_procs=1)
             est = float(r.get_estimated_percent_noise())
@@ -140,6 +150,10 @@ def cases(thorough: bool, st) -> List[dict]:
     drift = st["with_drift"] if thorough else [s for s in CHEAP if s in st["with_drift"]]
     for sp, noise, seed in itertools.product(drift, (0.02, 0.05), seeds):
         out.append({"part": "drift", "spectrum": sp, "noise": noise, "seed": seed})
+    for sp in (spectra if thorough else spectra[:3]):
+        for order in ("two-part", "asc"):
+            for seed in (seeds if thorough else (0,)):
+                out.append({"part": "noise", "spectrum": sp, "noise": 0.05, "seed": seed, "order": order})
     # call sequences within one process
     for sp in (spectra if thorough else spectra[:4] + ["ladder:RC2"]):
         for a, b in ((0.05, 1.0), (1.0, 0.05)):
@@ -158,7 +172,7 @@ def run(ctx) -> None:
                 "seeds 0..K-1 (K = 2 quick, 5 thorough): estimated/injected noise of the default automatic test inside the frozen band [0.33, 5], "
                 "suggested num_RC inside the limits returned with it, and perform_kramers_kronig_test agreeing with the exploratory entry point; "
                 "for every circuit with a drift-corrupted counterpart x noise {0.02, 0.05} % x seeds: pseudo chi-squared of the counterpart >= 2 x "
-                "that of the valid spectrum; and the same judged after the same circuit was tested at another noise level (1 % <-> 0.05 %) in the same "
+                "that of the valid spectrum; the noise clause also with the points listed ascending / low-frequency half first; and the same judged after the same circuit was tested at another noise level (1 % <-> 0.05 %) in the same "
                 "process. The claim is exhaustive over this finite grid only.")
     ctx.exhaustive = True
     ctx.assumptions = ["statistical property: decided only for the enumerated (circuit, noise, seed) grid with a wide frozen band; mis-calibrations below ~2x are not detectable",
